@@ -196,6 +196,66 @@ Definition elem_int (e : item) : N := match e with Str b => of_be b | Lst _ => 0
 Lemma elem_int_bytes e : of_be (BytesNotNil (ToData e)) = elem_int e.
 Proof. destruct e; reflexivity. Qed.
 
+(* ---------- EIP-1559 ---------- *)
+
+(* what a successful decodeEIP1559SignaturePayload establishes *)
+Lemma decode1559_inv bs chain n l t : (9 <= n)%nat ->
+  decodeEIP1559SignaturePayload bs chain n = Ok (l, t) ->
+  exists rest pos c0 e1 e2 e3 e4 e5 e6 e7 al tl,
+    bs = x02 :: rest /\ Decode rest = Ok (Some (Lst l), pos) /\ size_ok (Lst l) = true /\
+    (n <= length l)%nat /\
+    l = Str c0 :: e1 :: e2 :: e3 :: e4 :: e5 :: e6 :: e7 :: Lst al :: tl /\
+    head_nz c0 /\ Z.of_N (of_be c0) = chain /\
+    t = eip1559_tx e1 e2 e3 e4 e5 e6 e7 /\
+    map to_tree (firstn 9 l) = eip1559_body_al (norm t) (Z.to_N chain) (L (map to_tree al)).
+Proof.
+  intros Hn. unfold decodeEIP1559SignaturePayload.
+  destruct bs as [|b0 rest]; [discriminate|].
+  destruct (N.eqb_spec (b2n b0) (b2n TransactionType1559)) as [Eb|Eb]; cbn [negb]; [|discriminate].
+  apply b2n_inj in Eb. subst b0.
+  destruct (Decode_total_in_bounds rest) as [_ [_ HB]].
+  destruct (Decode rest) as [[decoded pos]|e|] eqn:ED; try discriminate.
+  destruct decoded as [[b|l0]|]; try discriminate.
+  destruct (HB (Lst l0) pos eq_refl) as [_ [Hsz _]].
+  destruct (length l0 <? n)%nat eqn:E9; [discriminate|]. apply Nat.ltb_ge in E9.
+  destruct l0 as [|e0 [|e1 [|e2 [|e3 [|e4 [|e5 [|e6 [|e7 [|e8 tl]]]]]]]]]; cbn [length] in E9; try lia.
+  unfold idx, lslice. cbn [nth_error bind length Nat.leb andb Nat.sub skipn firstn].
+  destruct (negb (IntOrZero (ToData e0) <? 2 ^ 63)%N || negb (Z.of_N (IntOrZero (ToData e0)) =? chain)%Z) eqn:EC;
+    [discriminate|].
+  apply orb_false_iff in EC as [_ EC]. apply negb_false_iff, Z.eqb_eq in EC.
+  destruct (canonicalFields [e0; e1; e2; e3; e4; e5; e6; e7] 5 7) eqn:ECF; cbn [negb]; [|discriminate].
+  destruct e8 as [|al]; cbn [IsList negb]; [discriminate|].
+  intros X. injection X as <- <-.
+  destruct (eip1559_fields_spec _ _ _ _ _ _ _ _ ECF) as [c0 [-> [Hc0 FS]]].
+  cbn [ToData IntOrZero] in EC.
+  exists rest, pos, c0, e1, e2, e3, e4, e5, e6, e7, al, tl.
+  repeat split; auto.
+  fold (eip1559_tx e1 e2 e3 e4 e5 e6 e7).
+  unfold eip1559_body_al.
+  change [Str c0; e1; e2; e3; e4; e5; e6; e7; Lst al]
+    with ([Str c0; e1; e2; e3; e4; e5; e6; e7] ++ [Lst al]).
+  rewrite map_app, FS. rewrite <- EC, N2Z.id. reflexivity.
+Qed.
+
+Theorem Decode1559_sound bs chain t :
+  DecodeEIP1559SignaturePayload bs chain = Ok t ->
+  exists rest l pos c0 al,
+    bs = x02 :: rest /\ Decode rest = Ok (Some (Lst l), pos) /\
+    nth_error l 0 = Some (Str c0) /\ Z.of_N (of_be c0) = chain /\ nth_error l 8 = Some (Lst al) /\
+    x02 :: encode (Lst (firstn 9 l)) =
+      x02 :: RLP (L (eip1559_body_al (norm t) (Z.to_N chain) (L (map to_tree al)))).
+Proof.
+  unfold DecodeEIP1559SignaturePayload.
+  destruct (decodeEIP1559SignaturePayload bs chain 9) as [[l t0]|e|] eqn:ED; cbn [bind]; try discriminate.
+  intros X. injection X as <-.
+  destruct (decode1559_inv bs chain 9 l t0 ltac:(lia) ED)
+    as [rest [pos [c0 [e1 [e2 [e3 [e4 [e5 [e6 [e7 [al [tl [-> [EDec [Hsz [Hlen [El [Hc0 [Ech [Et FS]]]]]]]]]]]]]]]]]]]].
+  exists rest, l, pos, c0, al. rewrite El at 2 3. cbn [nth_error]. repeat split; auto.
+  f_equal. replace (firstn 9 l) with (firstn 9 l ++ []) by apply app_nil_r.
+  rewrite (encode_prefix_is_RLP l 9 [] Hsz); [|reflexivity|cbn; lia].
+  rewrite app_nil_r, FS. reflexivity.
+Qed.
+
 Section Sound.
 Variable H : bytes -> bytes.
 Variable RD : sigdata -> bytes -> Z -> res bytes.
@@ -283,47 +343,6 @@ Proof.
     rewrite app_nil_r. change (firstn 6 l) with [e0; e1; e2; e3; e4; e5]. rewrite FS. reflexivity.
 Qed.
 
-(* ---------- EIP-1559 ---------- *)
-
-(* what a successful decodeEIP1559SignaturePayload establishes *)
-Lemma decode1559_inv bs chain n l t : (9 <= n)%nat ->
-  decodeEIP1559SignaturePayload bs chain n = Ok (l, t) ->
-  exists rest pos c0 e1 e2 e3 e4 e5 e6 e7 al tl,
-    bs = x02 :: rest /\ Decode rest = Ok (Some (Lst l), pos) /\ size_ok (Lst l) = true /\
-    (n <= length l)%nat /\
-    l = Str c0 :: e1 :: e2 :: e3 :: e4 :: e5 :: e6 :: e7 :: Lst al :: tl /\
-    head_nz c0 /\ Z.of_N (of_be c0) = chain /\
-    t = eip1559_tx e1 e2 e3 e4 e5 e6 e7 /\
-    map to_tree (firstn 9 l) = eip1559_body_al (norm t) (Z.to_N chain) (L (map to_tree al)).
-Proof.
-  intros Hn. unfold decodeEIP1559SignaturePayload.
-  destruct bs as [|b0 rest]; [discriminate|].
-  destruct (N.eqb_spec (b2n b0) (b2n TransactionType1559)) as [Eb|Eb]; cbn [negb]; [|discriminate].
-  apply b2n_inj in Eb. subst b0.
-  destruct (Decode_total_in_bounds rest) as [_ [_ HB]].
-  destruct (Decode rest) as [[decoded pos]|e|] eqn:ED; try discriminate.
-  destruct decoded as [[b|l0]|]; try discriminate.
-  destruct (HB (Lst l0) pos eq_refl) as [_ [Hsz _]].
-  destruct (length l0 <? n)%nat eqn:E9; [discriminate|]. apply Nat.ltb_ge in E9.
-  destruct l0 as [|e0 [|e1 [|e2 [|e3 [|e4 [|e5 [|e6 [|e7 [|e8 tl]]]]]]]]]; cbn [length] in E9; try lia.
-  unfold idx, lslice. cbn [nth_error bind length Nat.leb andb Nat.sub skipn firstn].
-  destruct (negb (IntOrZero (ToData e0) <? 2 ^ 63)%N || negb (Z.of_N (IntOrZero (ToData e0)) =? chain)%Z) eqn:EC;
-    [discriminate|].
-  apply orb_false_iff in EC as [_ EC]. apply negb_false_iff, Z.eqb_eq in EC.
-  destruct (canonicalFields [e0; e1; e2; e3; e4; e5; e6; e7] 5 7) eqn:ECF; cbn [negb]; [|discriminate].
-  destruct e8 as [|al]; cbn [IsList negb]; [discriminate|].
-  intros X. injection X as <- <-.
-  destruct (eip1559_fields_spec _ _ _ _ _ _ _ _ ECF) as [c0 [-> [Hc0 FS]]].
-  cbn [ToData IntOrZero] in EC.
-  exists rest, pos, c0, e1, e2, e3, e4, e5, e6, e7, al, tl.
-  repeat split; auto.
-  fold (eip1559_tx e1 e2 e3 e4 e5 e6 e7).
-  unfold eip1559_body_al.
-  change [Str c0; e1; e2; e3; e4; e5; e6; e7; Lst al]
-    with ([Str c0; e1; e2; e3; e4; e5; e6; e7] ++ [Lst al]).
-  rewrite map_app, FS. rewrite <- EC, N2Z.id. reflexivity.
-Qed.
-
 Theorem Recover1559_sound bs chain a t p :
   RecoverEIP1559Transaction H RD bs chain = Ok (a, t, p) ->
   exists rest l pos c0 al e10 e11 q,
@@ -352,25 +371,6 @@ Proof.
   repeat split; auto.
   unfold TransactionType1559. f_equal.
   replace (firstn 9 l) with (firstn 9 l ++ []) by apply app_nil_r.
-  rewrite (encode_prefix_is_RLP l 9 [] Hsz); [|reflexivity|cbn; lia].
-  rewrite app_nil_r, FS. reflexivity.
-Qed.
-
-Theorem Decode1559_sound bs chain t :
-  DecodeEIP1559SignaturePayload bs chain = Ok t ->
-  exists rest l pos c0 al,
-    bs = x02 :: rest /\ Decode rest = Ok (Some (Lst l), pos) /\
-    nth_error l 0 = Some (Str c0) /\ Z.of_N (of_be c0) = chain /\ nth_error l 8 = Some (Lst al) /\
-    x02 :: encode (Lst (firstn 9 l)) =
-      x02 :: RLP (L (eip1559_body_al (norm t) (Z.to_N chain) (L (map to_tree al)))).
-Proof.
-  unfold DecodeEIP1559SignaturePayload.
-  destruct (decodeEIP1559SignaturePayload bs chain 9) as [[l t0]|e|] eqn:ED; cbn [bind]; try discriminate.
-  intros X. injection X as <-.
-  destruct (decode1559_inv bs chain 9 l t0 ltac:(lia) ED)
-    as [rest [pos [c0 [e1 [e2 [e3 [e4 [e5 [e6 [e7 [al [tl [-> [EDec [Hsz [Hlen [El [Hc0 [Ech [Et FS]]]]]]]]]]]]]]]]]]]].
-  exists rest, l, pos, c0, al. rewrite El at 2 3. cbn [nth_error]. repeat split; auto.
-  f_equal. replace (firstn 9 l) with (firstn 9 l ++ []) by apply app_nil_r.
   rewrite (encode_prefix_is_RLP l 9 [] Hsz); [|reflexivity|cbn; lia].
   rewrite app_nil_r, FS. reflexivity.
 Qed.
@@ -429,3 +429,71 @@ Proof.
 Qed.
 
 End Sound.
+
+(* ---------- the access list: with the empty list the payload is the preimage of Tx/Spec.v; with a
+   non-empty one the returned fields (which have no access list) do not determine the payload ---------- *)
+Lemma eip1559_al_empty_preimage f c :
+  x02 :: RLP (L (eip1559_body_al f c (L (map to_tree [])))) = spec_preimage Eip1559 f c.
+Proof. reflexivity. Qed.
+
+(* a trivial instance of the parameters, used for witnesses and non-vacuity examples only *)
+Definition H_triv : bytes -> bytes := fun _ => [].
+Definition RD_triv : sigdata -> bytes -> Z -> res bytes := fun _ _ _ => Ok (repeat x01 20).
+
+(* 0x02 || rlp([1, 0, 0, 0, 0, "", 0, "", [[]], 0, 1, 1]) *)
+Definition al_witness : bytes :=
+  [x02; xcd; x01; x80; x80; x80; x80; x80; x80; x80; xc1; xc0; x80; x01; x01].
+
+Theorem sound_access_list_refuted :
+  exists H RD bs chain a t p,
+    RecoverRawTransaction H RD bs chain = Ok (a, t, p) /\
+    p <> spec_preimage Eip1559 (norm t) (Z.to_N chain).
+Proof.
+  exists H_triv, RD_triv, al_witness, 1%Z.
+  eexists. eexists. eexists. split; [vm_compute; reflexivity|].
+  vm_compute. intros X. discriminate X.
+Qed.
+
+(* ---------- what the int64 arithmetic on V accepts, in terms of the integer V written in the input ---------- *)
+Lemma wrap64_mod x : exists k, wrap64 x = (x + k * 2 ^ 64)%Z.
+Proof.
+  unfold wrap64. exists (- ((x + 2 ^ 63) / 2 ^ 64))%Z.
+  pose proof (Z.div_mod (x + 2 ^ 63) (2 ^ 64) ltac:(lia)). lia.
+Qed.
+
+Lemma wrap64_range x : (- 2 ^ 63 <= wrap64 x < 2 ^ 63)%Z.
+Proof. unfold wrap64. pose proof (Z.mod_pos_bound (x + 2 ^ 63) (2 ^ 64) ltac:(lia)). lia. Qed.
+
+Lemma wrap64_small x y : (- 2 ^ 63 <= y < 2 ^ 63)%Z ->
+  (wrap64 x = y <-> exists k, x = (y + k * 2 ^ 64)%Z).
+Proof.
+  intros Hy. split.
+  - intros E. destruct (wrap64_mod x) as [k Hk]. exists (- k)%Z. lia.
+  - intros [k ->]. pose proof (wrap64_range (y + k * 2 ^ 64)).
+    destruct (wrap64_mod (y + k * 2 ^ 64)) as [j Hj]. assert (j = - k)%Z by nia. subst. lia.
+Qed.
+
+(* legacy V: accepted as "original format" iff V is 27 or 28 modulo 2^64; as EIP-155 iff V is
+   35 + 2*chain + parity modulo 2^64 *)
+Theorem legacy_v_meaning vb chain :
+  let V := Z.of_N (of_be vb) in
+  (v_is_legacy (legacy_v (Str vb)) <-> exists p k, (p = 0 \/ p = 1)%Z /\ V = (27 + p + k * 2 ^ 64)%Z) /\
+  (v_is_eip155 (legacy_v (Str vb)) chain <->
+     exists p k, (p = 0 \/ p = 1)%Z /\ V = (35 + 2 * chain + p + k * 2 ^ 64)%Z).
+Proof.
+  cbv zeta. unfold legacy_v, v_is_legacy, v_is_eip155. cbn [elem_int].
+  set (V := Z.of_N (of_be vb)). split; split.
+  - intros [E|E]; apply wrap64_small in E; try lia; destruct E as [k E];
+      [exists 0%Z, k | exists 1%Z, k]; lia.
+  - intros [p [k [[->| ->] E]]]; [left|right]; apply wrap64_small; try lia; exists k; lia.
+  - cbv zeta.
+    destruct (wrap64_mod V) as [k1 E1]. destruct (wrap64_mod (chain * 2)) as [k2 E2].
+    destruct (wrap64_mod (wrap64 V - wrap64 (chain * 2))) as [k3 E3].
+    intros [E|E]; apply wrap64_small in E; try lia; destruct E as [k E];
+      [exists 0%Z | exists 1%Z]; exists (k - k1 + k2 - k3)%Z; lia.
+  - cbv zeta.
+    destruct (wrap64_mod V) as [k1 E1]. destruct (wrap64_mod (chain * 2)) as [k2 E2].
+    destruct (wrap64_mod (wrap64 V - wrap64 (chain * 2))) as [k3 E3].
+    intros [p [k [[->| ->] E]]]; [left|right]; apply wrap64_small; try lia;
+      exists (k + k1 - k2 + k3)%Z; lia.
+Qed.
